@@ -128,6 +128,9 @@ def to_spec(it):
 
 
 def evaluate(item):
+    if isinstance(item, dict) and item.get("kind") == "wide":
+        from mc.props import wide
+        return wide.eval_c03(item)
     spec = to_spec(item)
     obs = common.run_spec(spec)
     if obs.get("error"):
@@ -170,12 +173,14 @@ def universe(tier):
 def run(ctx):
     st = Stats()
     explore(ctx, universe(ctx.tier), "mc.props.c03:evaluate", st, payload=payload, sample_of=sample)
+    from mc.props import wide
+    wide.sweep(ctx, st, "C03")
     common.vacuity_guard(ctx, st)
     cov = st.coverage(
         "complete product universes: single/pair tasks for every effort minute 1..240 x efficiency x resolution x direction x contention; "
         "teams/alternatives; the 2-3 task project universe of C01. states = distinct schedule observations; transitions = placements + "
         "bookings by the real scheduler; non-trivial = some booked slot is partial or shared")
-    return ctx.finish(cov, ASSUME)
+    return ctx.finish(cov, ASSUME + [wide.NOTE])
 
 
 def replay(path):
